@@ -329,7 +329,7 @@ func run(s Script, v *vt.V) {
 	}
 }
 
-var hosts = []string{"h1.example", "h2.example:5000", "localhost", "reg.io"}
+var hosts = []string{"h1.example", "h2.example:5000", "localhost", "reg.io", "Registry.Example.COM", "registry.example.com"}
 var helpers = []string{"osxkeychain", "pass", "store"}
 
 func genScript(t *rapid.T) Script {
@@ -427,7 +427,7 @@ func genScript(t *rapid.T) Script {
 var prop = &vt.Prop[Script]{
 	ID:   "C19",
 	Name: "CredentialLookup",
-	Rule: "config documents generated from the schema: auths with plain host keys, https:// and http:// URL keys with 0-3 path segments and trailing slashes, keys containing '//' without a scheme, several URL keys for one host, explicit + URL key for one host; entries with username/password, auth = base64(user:password) (passwords with ':' inside/leading/trailing, spaces, leading and trailing white space of every kind, user names that begin with white space, NUL inside, non-ASCII, arbitrary generated text so that every base64 digit and padding length occurs), auth overriding username/password, identitytoken, registrytoken, identitytoken+username, no credentials at all ({}); credsStore; credHelpers incl. the empty string and a per-host helper equal to credsStore; helper behaviour per (helper, host) in {credentials, token, not found, binary missing, other error}; the file is loaded through LoadWithEnv from DOCKER_CONFIG 16 times (fresh map orders) and all hosts (and some keys) are looked up in a different order each time; oracle = an independent reference of the stated precedence: every decoding and every order gives exactly the reference's entry or error class (colliding URL keys: error listing the keys sorted), every decoding answers each lookup identically (same entry, same error text), and a file with undecodable auth fields is refused with the same error every time; non-trivial = some looked-up host has >= 2 sources; distinct = (document, behaviours, lookups)",
+	Rule: "config documents generated from the schema: auths with plain host keys (one host name also in upper case: host names are compared as spelled), https:// and http:// URL keys with 0-3 path segments and trailing slashes, keys containing '//' without a scheme, several URL keys for one host, explicit + URL key for one host; entries with username/password, auth = base64(user:password) (passwords with ':' inside/leading/trailing, spaces, leading and trailing white space of every kind, user names that begin with white space, NUL inside, non-ASCII, arbitrary generated text so that every base64 digit and padding length occurs), auth overriding username/password, identitytoken, registrytoken, identitytoken+username, no credentials at all ({}); credsStore; credHelpers incl. the empty string and a per-host helper equal to credsStore; helper behaviour per (helper, host) in {credentials, token, not found, binary missing, other error}; the file is loaded through LoadWithEnv from DOCKER_CONFIG 16 times (fresh map orders) and all hosts (and some keys) are looked up in a different order each time; oracle = an independent reference of the stated precedence: every decoding and every order gives exactly the reference's entry or error class (colliding URL keys: error listing the keys sorted), every decoding answers each lookup identically (same entry, same error text), and a file with undecodable auth fields is refused with the same error every time; non-trivial = some looked-up host has >= 2 sources; distinct = (document, behaviours, lookups)",
 	Gen:  genScript,
 	Run:  run,
 }
